@@ -55,7 +55,7 @@ func (c03) Gen(r *core.Rng, tier string, idx int) *core.Trace {
 	case "table":
 		t = genTableHistory(r, tier, idx)
 	case "ext4":
-		t = genExt4History(r, tier, idx, false)
+		t = genExt4History(r, tier, idx, r.Bool()) // (half of them with the wide range of Create geometries: last groups, flex sizes, inode ratios)
 		t.Cfg["size"] = t.Cfg["size"]/512*512 + 512*r.Range(0, 7) // not a multiple of the block size
 	case "iso":
 		t = c06{}.Gen(r, tier, idx)
